@@ -317,7 +317,10 @@ def check_fresh(b, mi, res: Result, w):
         elif fi.kind == "enum" and fi.label == "singular":
             ok = (got == 0) and isinstance(got, int)
         else:
-            ok = (got == want) and (type(got) is type(want) or want is None)
+            # value equality is what the property states; only clearly different kinds are told apart
+            # (a bool is not an int field's 0, text is not bytes, None only where None is the default)
+            ok = (got == want) and (got is None) == (want is None) and isinstance(got, bool) == isinstance(want, bool) \
+                and isinstance(got, str) == isinstance(want, str) and isinstance(got, (list, dict)) == isinstance(want, (list, dict))
         if not ok:
             res.violation("fresh", [fi.cls_key(), "wrong-default"], f"{mi.full_name}().{nm} = {got!r}, proto3 default is {want!r}", w)
     # reading (also nested lazily created defaults) must leave a fresh message fresh
